@@ -57,6 +57,8 @@ def states(tier, seed):
         if rap in (0.25, 1.0) or tier == "thorough":
             for a, b in PAIRS:
                 st.append(dict(base, part="vars", dvs={a: [SINGLE[a][1], "const"], b: [SINGLE[b][2], "const"]}))
+    for nsec, nx, rap, dv in itertools.product([1, 2, 3], [2, 3], [0.25, 0.0, 0.6, 1.0], ["none", "both_default", "twist", "chord"]):
+        st.append(dict(part="multisec", nsec=nsec, nx=nx, rap=rap, dv=dv, fam=fam))
     for ncp, (side, ny), what in itertools.product([1, 2, 3, 5], [("left", 3), ("left", 4), ("full", 5), ("full", 7)], ["twist_cp", "chord_cp", "t_over_c_cp", "xshear_cp", "zshear_cp", "thickness_cp", "radius_cp"]):
         st.append(dict(part="spline", ncp=ncp, side=side, ny=ny, what=what, fam=fam))
     return st, 0
@@ -137,7 +139,55 @@ def expected(m0, s, dvals):
 
 
 def run_state(s):
-    return part_vars(s) if s["part"] == "vars" else part_spline(s)
+    return globals()["part_" + s["part"]](s)
+
+
+def part_multisec(s):
+    """the documented variables on a MULTI-SECTION surface: every section must show the single-surface closed-form effect about
+    the surface's reference axis (ref_axis_pos), defaults are a no-op"""
+    from openaerostruct.geometry.geometry_group import MultiSecGeometry
+
+    n, rap, fam = s["nsec"], s["rap"], s["fam"]
+    nx = s["nx"]
+    meshes = []
+    for i in range(n):
+        m = np.zeros((nx, 3, 3))
+        ch = 1.0 + 0.15 * i + 0.01 * fam
+        y = np.linspace(-(n - i) * 1.25, -(n - i - 1) * 1.25, 3)
+        le = 0.2 * (n - i) + 0.1 * np.abs(y - y[-1])  # swept leading edge, continuous across the junctions
+        m[:, :, 0] = le[None, :] + np.linspace(0.0, 1.0, nx)[:, None] * ch
+        m[:, :, 1] = y[None, :]
+        meshes.append(m)
+    surf = {"name": "surface", "is_multi_section": True, "num_sections": n, "sec_name": ["sec%d" % i for i in range(n)], "symmetry": True, "S_ref_type": "wetted", "meshes": [m.copy() for m in meshes], "ref_axis_pos": rap, "CL0": 0.0, "CD0": 0.015, "k_lam": 0.05, "c_max_t": 0.303, "t_over_c_cp": np.array([0.12]), "with_viscous": False, "with_wave": False}
+    dv, vals = s["dv"], None
+    if dv == "twist":
+        vals = [3.0 - 1.5 * i for i in range(n)]
+        surf["twist_cp"] = [np.array([v, v]) for v in vals]
+    elif dv == "chord":
+        vals = [1.3 - 0.2 * i for i in range(n)]
+        surf["chord_cp"] = [np.array([v, v]) for v in vals]
+    elif dv == "both_default":
+        surf["twist_cp"] = [np.zeros(2) for _ in range(n)]
+        surf["chord_cp"] = [np.ones(2) for _ in range(n)]
+    p = om.Problem(reports=False)
+    p.model.add_subsystem("surface", MultiSecGeometry(surface=surf))
+    p.setup()
+    p.run_model()
+    viol, val, moved = [], 0, 0.0
+    for i in range(n):
+        out = np.array(p.get_val("surface.sec%d.mesh.rotate.mesh" % i))
+        d = {} if vals is None else {dv: np.full(3, vals[i])}
+        want = expected(meshes[i], dict(side="left", rap=rap), d)
+        sc = np.abs(meshes[i]).max()
+        val += 2
+        e = np.abs(ref_axis(out, rap) - ref_axis(want, rap)).max() / sc
+        if not e <= TOL:
+            viol.append(dict(sig=dict(oracle="reference_axis", multisection=True, dv=dv), msg="section %d of %d, ref_axis_pos %g: the reference-axis line moves by %.2e under %s" % (i, n, rap, e, dv), measure=float(e)))
+        e = np.abs(out - want).max() / sc
+        if not e <= TOL:
+            viol.append(dict(sig=dict(oracle="documented_effect" if vals is not None else "defaults_are_noop", multisection=True, dv=dv), msg="section %d of %d, ref_axis_pos %g: mesh after %s differs from the closed-form result by %.2e" % (i, n, rap, dv, e), measure=float(e)))
+        moved = max(moved, np.abs(out - meshes[i]).max())
+    return dict(viol=viol, nontrivial=bool(moved > 1e-12 or vals is None), digest=digest_arrays(out), transitions=1, validated=val)
 
 
 def part_vars(s):
